@@ -12762,6 +12762,7 @@ class TensorDictBase(MutableMapping):
         #     result.lock_()
         return result
 
+    @lock_blocked
     def _flatten_keys_inplace(self, separator, is_leaf):
         if is_leaf is None:
             is_leaf = _is_leaf_nontensor
@@ -12782,13 +12783,15 @@ class TensorDictBase(MutableMapping):
             raise KeyError(
                 f"Flattening keys in tensordict causes keys {conflicts} to collide."
             )
-        # we will need to remove the empty tensordicts later on
-        root_keys = set(self.keys())
-        for leaf, leaf_flat in zip(all_leaves, all_leaves_flat):
-            self.rename_key_(leaf, leaf_flat)
-            if isinstance(leaf, str):
-                root_keys.discard(leaf)
-        self.exclude(*root_keys, inplace=True)
+        # Collect the leaves, remove every root entry, then bind the leaves under their flat
+        # names. Renaming leaf after leaf overwrites a root entry whose key equals a flat
+        # name, and excluding the former root keys afterwards drops the root-level leaves.
+        all_vals = [self._get_tuple(leaf, NO_DEFAULT) for leaf in all_leaves]
+        self.exclude(*self.keys(), inplace=True)
+        for leaf_flat, val in zip(all_leaves_flat, all_vals):
+            self._set_str(
+                leaf_flat, val, inplace=False, validated=True, non_blocking=False
+            )
         return self
 
     @cache  # noqa: B019
